@@ -149,24 +149,31 @@ def check_case(case) -> Outcome:
     mkw = {"materializer": "narwhals"} if case.get("mat") == "narwhals" else {}
     if mkw:
         out.label("narwhals-materializer")
-    mm = model_matrix(s, df, ensure_full_rank=efr, output=output, na_action=na, **mkw)
-    spec = mm.model_spec
+    # a two-sided formula: the recorded spec has several parts (the left-hand side comes first) and is re-used as a whole
+    lhs_col = None
+    if case.get("twosided"):
+        lhs_col = "z" if mut["col"] != "z" else "y"
+        out.label("two-sided")
+    extra = (lhs_col,) if lhs_col else ()
+    mm = model_matrix(f"{lhs_col} ~ {s}" if lhs_col else s, df, ensure_full_rank=efr, output=output, na_action=na, **mkw)
+    spec_all = mm.model_spec
+    spec = spec_all.rhs if lhs_col else spec_all
     out.label("na:" + na)
     # levels are learnt from the rows that survive the missing-data policy of the training build
     tr_levels = tr
     if na == "drop":
         from .C06 import null_rows as _nr
 
-        gone_tr = _nr(fc, tr)
+        gone_tr = _nr(fc, tr, extra)
         if gone_tr:
             tr_levels = F.take_rows(tr, [i for i in range(tr["n"]) if i not in gone_tr])
-    if case.get("subset") and len(fc["terms"]) >= 2:
+    if case.get("subset") and len(fc["terms"]) >= 2 and not lhs_col:
         # keep only some of the terms (Term objects of the fitted spec), e.g. an interaction without its margins
         lib_terms = [t for t in spec.formula if any(f.eval_method.value != "literal" for f in t.factors)]
         pick = sorted({i % len(lib_terms) for i in case["subset"]})
         keep = [lib_terms[i] for i in pick]
         start = 1 if fc["intercept"] else 0
-        spec = spec.subset(keep)
+        spec = spec_all = spec.subset(keep)
         fc = {"intercept": False, "terms": [fc["terms"][i] for i in pick]}
         out.label("subset")
     names = list(spec.column_names)
@@ -185,7 +192,8 @@ def check_case(case) -> Outcome:
     with warnings.catch_warnings(record=True) as w:
         warnings.simplefilter("always")
         try:
-            res = spec.get_model_matrix(dff, context={})
+            res = spec_all.get_model_matrix(dff, context={})
+            res = res.rhs if lhs_col else res
             err = None
         except Exception as e:  # judged below
             res, err = None, e
@@ -219,7 +227,7 @@ def check_case(case) -> Outcome:
         # rows of the follow-up holding a null in a used column are dropped (C06 owns the exact policy)
         from .C06 import null_rows
 
-        gone = null_rows(fc, fol)
+        gone = null_rows(fc, fol, extra)
         if gone:
             out.label("follow-up-null-rows-dropped")
             keep_rows = [i for i in range(fol["n"]) if i not in gone]
@@ -263,7 +271,8 @@ def check_case(case) -> Outcome:
     if unseen_observed:
         with warnings.catch_warnings(record=True) as w2:
             warnings.simplefilter("always")
-            res2 = spec.get_model_matrix(dff, context={})
+            res2 = spec_all.get_model_matrix(dff, context={})
+            res2 = res2.rhs if lhs_col else res2
         if not any(issubclass(x.category, DataMismatchWarning) for x in w2):
             out.fail("unseen-level-warning", f"{s!r}: second application of the same spec to the same follow-up data was silent", **feat, second=True)
         if list(res2.model_spec.column_names) != names:
@@ -291,6 +300,7 @@ def gen(max_rows=10):
             # (the odd name goes to the mutated column more often than to another one)
             "rename": draw(st.sampled_from([None, None, "A", "B"] + ([col, col] if col in ("A", "B") else []))),
             "mat": draw(st.sampled_from(["pandas", "pandas", "narwhals"])),
+            "twosided": draw(st.sampled_from([False, False, True])),
         }
 
     return strat()
